@@ -64,8 +64,9 @@
 //     trailing partial name).
 //
 // and one soft flag, applied when no hard event occurs:
-//   - "name-over-255-octets": some name needs more than 255 octets (§3.1 limits
-//     names to 255 octets; whether a decoder enforces it is left open here).
+//   - "name-over-255-octets": some name needs more than 255 octets. §3.1 restricts
+//     names to 255 octets or less, so such bytes have no reading: REJECT. (Until the
+//     library bounded its decoding cost - fix f2111b1 - this was left open.)
 //
 // Soft flags do not stop the walk; a later REJECT event still gives REJECT
 // (every decoder fails there, whether or not it accepted the chain / root /
@@ -274,7 +275,7 @@ func DecodeFull(b []byte) Result {
 	}
 	switch {
 	case r.Long:
-		r.Class, r.Why = Unspecified, WhyLong
+		r.Class, r.Why = Reject, WhyLong
 		r.Names, r.Labels = nil, nil
 	case r.Chain:
 		r.Class, r.Why = MayReject, WhyChain
